@@ -530,7 +530,9 @@ def gen_case(rng, K, lits, force_race=False):
             for w in ("first", "second"):
                 if replies[j].get(w) and replies[j][w]["kind"] == "timeout":
                     replies[j][w] = {"kind": "unknown"}
-        sched = {"type": "race", "p": first_sat, "s": sj}
+        # a solver that ignores SIGTERM is SIGKILLed after halmos' grace period and its pipes are closed at once: the
+        # blocked `future.result()` then raises (deterministically); an obedient one usually dies cleanly (empty output)
+        sched = {"type": "race", "p": first_sat, "s": sj, "ignore_sigterm": rng.random() < 0.7}
     elif typ == "seq":
         if early and first_sat is not None and stuck_after:
             early = False   # would race (covered by the race schedule)
@@ -676,7 +678,7 @@ def run_and_queue(ctx, pend, case, origin, retries=1):
 WITNESS = {
     "race": {"K": ["success", "panic", "stuck"], "refinable": False, "early": True, "cache": False,
              "replies": {"1": {"first": {"kind": "sat"}}, "2": {"first": {"kind": "unsat"}}},
-             "sched": {"type": "race", "p": 1, "s": 2}},
+             "sched": {"type": "race", "p": 1, "s": 2, "ignore_sigterm": True}},
     "timeoutOverStuck": {"K": ["success", "panic", "stuck"], "refinable": False, "early": False, "cache": False,
                          "replies": {"1": {"first": {"kind": "unknown"}}, "2": {"first": {"kind": "sat"}}},
                          "sched": {"type": "par", "perm": [1]}},
@@ -1155,6 +1157,103 @@ def real_yices_one(k, swap, cache):
     return run.results[0].exitcode if len(run.results) == 1 else None
 
 
+KEY_PARALLEL = "cache-solver:unsat-core-ids-collide-across-shape-parallel-queries"
+PAR_LENS = [96, 64, 32]          # path 1, 3, 5 (DFS order of the candidate split); paths 0, 2, 4 are their successful siblings
+PAR_FN = "check_p"
+
+
+def parallel_contract():
+    """check_p(bytes b, uint256 x): assume(x > 10); len = b.length (halmos splits over the candidate lengths:
+    conditions `p_b_length == c`, the same shape for every candidate); if (x < len + 100) Panic(1).
+    Three violation paths with shape-parallel conditions [setup, x > 10, len == c, x < c + 100] and different constants."""
+    art = H()["art"]
+    x = asm.calldata_arg(1)
+    ln = [("push", 0x44), "CALLDATALOAD"]
+    b = (asm.vm_assume([("push", 10)] + x + ["GT"]) + ln + [("push", 100), "ADD"] + x + ["LT"]
+         + [("ref", "viol"), "JUMPI", "STOP", ("label", "viol")] + asm.panic(1))
+    return art.TestContract("P", [art.Fn(f"{PAR_FN}(bytes b, uint256 x)", b)])
+
+
+def run_parallel(pc):
+    """pc = {"replies": {"1": kind, "3": kind, "5": kind}, "cache": bool, "order": [path ids] | None (one thread, DFS order)}"""
+    h = H()
+    art, stub = h["art"], h["stub"]
+    tmp = tempfile.mkdtemp(prefix="verif_c05p_")
+    info = {}
+
+    def inspect(wd, run):
+        for f in glob.glob(os.path.join(wd, "smt", PAR_FN, "*.smt2")):
+            j = int(os.path.basename(f).split(".")[0])
+            q = open(f).read()
+            out = open(f + ".out").read() if os.path.exists(f + ".out") else None
+            info[j] = (re.findall(r":named (<\d+>)", q), re.findall(r"p_b_length\S* \(_ bv(\d+) 256\)", q), out)
+
+    try:
+        with stub.Script(tmp) as s:
+            prev = None
+            order = pc.get("order")
+            for j in (order or [1, 3, 5]):
+                f = stub_fields({"kind": pc["replies"][str(j)], "core": "all"}, pc["cache"])
+                if order:
+                    f["after"], f["delay_ms"], f["after_timeout_s"] = ([prev] if prev else []), (25 if prev else 200), 6
+                    prev = f"{PAR_FN}/{j}"
+                s.rule({"fn": PAR_FN, "path": j}, **f)
+            s.default(reply="garbage", stdout="stub: unexpected query\n")
+            s.write()
+            run = art.run_contract_offline(parallel_contract(), solver_command=s.command, cache_solver=pc["cache"],
+                                           solver_threads=8 if order else 1, default_bytes_lengths=",".join(str(x) for x in PAR_LENS[::-1]),
+                                           inspect=inspect)
+            done = [r["q"] for r in sorted((r for r in s.log() if r["ev"] == "done"), key=lambda r: r["t"])]
+    finally:
+        shutil.rmtree(tmp, ignore_errors=True)
+    code = run.results[0].exitcode if len(run.results) == 1 else None
+    return code, info, done, run
+
+
+def parallel_paths_stage(ctx):
+    """>= 2 shape-parallel violation paths in one test (same structure, different constants): one answered unsat with a core
+    naming its own assertions (the stub echoes the `:named` ids of the query file it is given), another answered sat; both
+    completion orders; cache on / off. A counterexample exists: FAIL in all."""
+    rng = ctx.rng
+    combos = []
+    for a, b in [(1, 3), (3, 1), (1, 5), (5, 3), (3, 5), (5, 1)]:
+        third = ({1, 3, 5} - {a, b}).pop()
+        for cache in (True, False):
+            for order in (None, "perm"):
+                combos.append((a, b, third, cache, order))
+    rng.shuffle(combos)
+    combos.sort(key=lambda c: (not c[3], c[4] is not None))   # cache on + one thread first
+    for a, b, third, cache, order in combos[: ctx.scale(9, len(combos))]:
+        replies = {str(a): rng.choice(["unsat", "unsat_rc"]), str(b): rng.choice(["sat", "sat_rc"]),
+                   str(third): rng.choice(["unsat", "unknown", "unsat"])}
+        for first in ((a, b), (b, a)) if order else ((None, None),):
+            pc = {"replies": replies, "cache": cache}
+            if order:
+                rest = [third]
+                pc["order"] = list(first) + rest if rng.random() < 0.5 else rest + list(first)
+            code, info, done, run = run_parallel(pc)
+            # the harness' assumptions about the contract: three parallel violation paths 1, 3, 5 over the candidate lengths
+            for j, want in zip((1, 3, 5), PAR_LENS):
+                if j in info and info[j][1] != [str(want)]:
+                    raise RuntimeError(f"harness: path {j} is not the len == {want} path: {info[j][1]}")
+                if j in info and cache and info[j][2] is not None and replies[str(j)].startswith("unsat"):
+                    if re.findall(r"<\d+>", info[j][2]) != info[j][0]:
+                        raise RuntimeError("harness: the stub did not echo the ids of the query it was given")
+            if pc.get("order") and [q for q in done if q in (f"{PAR_FN}/{a}", f"{PAR_FN}/{b}")] != \
+                    [f"{PAR_FN}/{j}" for j in pc["order"] if j in (a, b) and f"{PAR_FN}/{j}" in done]:
+                ctx.count("schedule-not-realized(skipped)")
+                continue
+            ctx.case(("parallel", json.dumps(pc, sort_keys=True)), nontrivial=True)
+            ctx.count(f"parallel-paths:{'cache' if cache else 'nocache'}:{'permuted' if order else 'one-thread'}:{EXIT_NAME.get(code, code)}")
+            if code != 1:
+                key = KEY_PARALLEL if cache else "verdict:parallel-paths-without-cache"
+                ctx.violation(f"{key}:{EXIT_NAME.get(code, code)}-instead-of-FAIL",
+                              f"three shape-parallel Panic paths (b.length == 96/64/32), scripted answers {replies}, cache_solver={cache}, "
+                              f"completion order {done}: path {b} has a counterexample (the property says FAIL) but halmos reports "
+                              f"{EXIT_NAME.get(code, code)}; queries actually sent to the solver: {sorted(info)}",
+                              {"kind": "parallel", "pc": pc})
+
+
 def correspond(ctx):
     rng = ctx.rng
     lits = harvest_literals()
@@ -1176,6 +1275,7 @@ def correspond(ctx):
     stage("get_solver_output", lambda: unit_get_solver_output(ctx))
     stage("parse_unsat_core", lambda: unit_parse_unsat_core(ctx))
     stage("real-yices", lambda: real_yices_cases(ctx))
+    stage("parallel-paths", lambda: parallel_paths_stage(ctx))
 
     pend = Pending()
     # 0. corpus + witnesses of the `_cex` theorems
@@ -1185,7 +1285,7 @@ def correspond(ctx):
     for name, case in WITNESS.items():
         # the outcome of killing the running stuck confirmation is itself a race (OSError vs clean empty output):
         # give the `race` witness a few runs so that the known finding is observed in (almost) every check run
-        for attempt in range(5 if name == "race" else 1):
+        for attempt in range(3 if name == "race" else 1):
             before = len(pend.items)
             run_and_queue(ctx, pend, case, f"witness:{name}", retries=3)
             ctx.count("witness")
@@ -1273,6 +1373,11 @@ def replay(ctx, data) -> bool:
         want = fl if fl in ("sat", "unsat", "unknown") else "err"
         print(f"from_result({r['text']!r}, rc={r['rc']}) -> {kind}; expected {want}")
         return kind != want or (kind == "sat" and so.model.is_valid != ("f_evm_" not in r["text"]))
+    if r.get("kind") == "parallel":
+        code, info, done, run = run_parallel(r["pc"])
+        print(f"halmos reports {EXIT_NAME.get(code, code)}; completion order {done}; queries sent to the solver: {sorted(info)}; the property says FAIL")
+        print(run.stdout[-500:])
+        return code != 1
     if r.get("kind") == "core":
         h = H()
         got = h["hs"].parse_unsat_core(r["text"])
